@@ -234,7 +234,7 @@ class C01(Spec):
 
     # ---- cases -----------------------------------------------------------------------
     def gen_cases(self, rng, tier):
-        per = 55 if tier == 'quick' else 1100
+        per = 400 if tier == 'quick' else 1500
         for cls in CLASSES:
             m = per if cls not in ('blnoise', 'firnoise', 'shaped') else max(per // 6, 6)
             for _ in range(m):
@@ -249,7 +249,7 @@ class C01(Spec):
                 else:
                     chunks = S.boundary_chunks(rng, n, marks)
                 yield {'kind': 'factory', 'cls': cls, 'tree': tree, 'chunks': chunks}
-        nfn = 120 if tier == 'quick' else 2500
+        nfn = 600 if tier == 'quick' else 4000
         for _ in range(nfn):
             fs = rng.choice(S.FS_LIST)
             e = env(rng, fs, None, span=300, window=rng.choice(S.WINDOWS), valid=rng.random() < 0.95)
